@@ -28,7 +28,7 @@ def bounds(tier, seed):
             'h_interleaved': 'one process visiting signed n / unsigned n-1 / unsigned n / signed n+1 formats (n in 2..12,16,31..33 and 63..66,128) forward then '
                              'backward with boundary inputs: exposes state kept between calls',
             'e_register': 'x op y, op in {+,-,*}, overflow=wrap, sizing=same: all code pairs n_word<=%d (n_frac 0 and mid), boundary pairs '
-                          'for n_word in {8,16,32,63,64,65}' % (4 if tier == 'quick' else 5),
+                          'for n_word in {8,16,32,63,64,65}; results stored into explicit wrap registers of n, n+1 and 2n+1 bits via out=, config.op_out and numpy out=' % (4 if tier == 'quick' else 5),
             'seed': seed}
 
 
@@ -307,6 +307,63 @@ def register(acc, fmt, xs, ys, rounding, part):
         acc.sample(dict(case, xs=list(xs)[:2], ys=list(ys)[:2]), 1)
 
 
+def register_out(acc, fmt, xs, ys, part):
+    """x op y stored into an explicit destination register with overflow=wrap, by out=, config.op_out and numpy out=;
+    destinations narrower and wider than the exact result, same fraction length (so the register only wraps)"""
+    from ..common import fx
+    n = fmt.n_word
+    for opn, op in OPS.items():
+        for dfmt in (Fmt(True, n, fmt.n_frac), Fmt(False, n + 1, fmt.n_frac), Fmt(True, 2 * n + 1, fmt.n_frac), Fmt(False, 2 * n + 1, fmt.n_frac),
+                     Fmt(True, 2 * n + 1, 2 * fmt.n_frac)):
+            if not dfmt.signed and fmt.signed:
+                continue
+            if opn == '*' and dfmt.n_frac != 2 * fmt.n_frac and fmt.n_frac != 0:
+                continue
+            if opn != '*' and dfmt.n_frac != fmt.n_frac:
+                continue
+            for via in ('out=', 'op_out', 'np_out'):
+                case = {'part': part, 'regout': True, 'fmt': list(fmt), 'dfmt': list(dfmt), 'op': opn, 'via': via, 'xs': list(xs), 'ys': list(ys)}
+                acc.evaluations += len(xs)
+                acc.transitions += 1
+                acc.nontrivial += len(xs)
+                m = min(len(xs), len(ys))
+                try:
+                    dt = object if n >= 64 else np.int64
+                    x = mk(np.array(xs[:m], dtype=dt), fmt, 'trunc', 'wrap', raw=True)
+                    y = mk(np.array(ys[:m], dtype=dt), fmt, 'trunc', 'wrap', raw=True)
+                    t = mk(np.zeros(m), dfmt, 'trunc', 'wrap')
+                    f = {'+': fx.add, '-': fx.sub, '*': fx.mul}[opn]
+                    if via == 'out=':
+                        z = f(x, y, out=t)
+                    elif via == 'op_out':
+                        x.config.op_out = t
+                        z = do_binop(opn, x, y)
+                    else:
+                        z = {'+': np.add, '-': np.subtract, '*': np.multiply}[opn](x, y, out=t)
+                    got = codes(z)
+                except Exception as e:
+                    acc.violation('exception', case, '%s %s into wrap register %s via %s raised %r' % (fmt.dtype, opn, dfmt.dtype, via, e),
+                                  {'part': part, 'op': opn, 'via': via})
+                    continue
+                exp = []
+                for a, b in zip(xs[:m], ys[:m]):
+                    r = op(a, b)
+                    nf_exact = 2 * fmt.n_frac if opn == '*' else fmt.n_frac
+                    r <<= (dfmt.n_frac - nf_exact)
+                    exp.append(overflow_code(r, dfmt, 'wrap'))
+                if got != exp or z is not t:
+                    i = [j for j in range(m) if got[j] != exp[j]]
+                    i = i[0] if i else 0
+                    acc.violation('register_out', dict(case, xs=[xs[i]], ys=[ys[i]]), '%s code %d %s code %d into wrap register %s via %s: %s, expected %d'
+                                  % (fmt.dtype, xs[i], opn, ys[i], dfmt.dtype, via, got[i], exp[i]), {'part': part, 'op': opn, 'via': via}, full=case)
+                else:
+                    acc.outcome('register_out_ok')
+
+
+def do_binop(opn, x, y):
+    return x + y if opn == '+' else (x - y if opn == '-' else x * y)
+
+
 def run_shard(sh):
     reset_class_state()
     acc = Acc()
@@ -392,6 +449,9 @@ def run_shard(sh):
                       if fmt.lo <= c <= fmt.hi]
                 cs = sorted(cs)
                 register(acc, fmt, cs, cs, 'trunc', 'eb')
+                if nw <= 64:
+                    big = [c for c in cs if abs(c) >= fmt.hi // 3][:6] + [1]
+                    register_out(acc, fmt, [a for a in big for b in big], [b for a in big for b in big], 'eb')
     return acc
 
 
@@ -400,6 +460,9 @@ def replay(case):
     acc = Acc()
     fmt = Fmt(*case['fmt'])
     part = case['part']
+    if case.get('regout'):
+        register_out(acc, fmt, case['xs'], case['ys'], part)
+        return [v for v in acc.violations if v['case'].get('via') == case['via'] and v['case'].get('op') == case['op'] and v['case'].get('dfmt') == case['dfmt']]
     if part in ('e', 'eb'):
         register(acc, fmt, case['xs'], case['ys'], case['rounding'], part)
     elif part == 'd':
